@@ -315,6 +315,26 @@ def gen_wellbehaved(rng, maxlen):
     return pend0, h[:maxlen]
 
 
+def gen_prebuilt(rng, maxlen):
+    """The cache's legitimate use: k groups (batches of 1..3) of ONE lineage filled back to back while nothing is pending, then
+    injected in order (all accepted, or one refusal which derails the rest).  On the unchanged code every accepted injection of
+    the all-accepted variant carries the right counters although the lineage is 're-filled'."""
+    l = rng.randrange(3)
+    k = rng.choice([2, 2, 3, 4])
+    h = []
+    if rng.random() < 0.3:
+        h += [('Autofill', (l + 1) % 3, rng.choice([1, 2]), True), ('Inject', 0, True), ('Bake',)]
+    first = sum(1 for c in h if c[0] == 'Autofill')
+    for _ in range(k):
+        h.append(('Fill', l, rng.choice([1, 2, 2, 3])))
+    refuse_at = rng.randrange(k) if rng.random() < 0.25 else None
+    for i in range(k):
+        h.append(('Inject', first + i, i != refuse_at))
+        if rng.random() < 0.2:
+            h.append(('Bake',))
+    return 0, h[:max(maxlen, len(h))]
+
+
 def gen_arbitrary(rng, maxlen):
     h, ngroups, usable = [], 0, []
     for _ in range(rng.randrange(1, maxlen + 1)):
@@ -353,6 +373,8 @@ FIXED = [
              ('Autofill', 1, 3, True), ('Inject', 2, True), ('Bake',), ('Fill', 0, 1), ('Inject', 3, True)]),
     # pre-building two groups on one lineage and injecting them in order (the cache's legitimate use)
     (126, 0, [('Fill', 0, 1), ('Fill', 0, 2), ('Inject', 0, True), ('Inject', 1, True)]),
+    (10, 0, [('Fill', 0, 2), ('Fill', 0, 2), ('Inject', 0, True), ('Inject', 1, True)]),
+    (10, 0, [('Fill', 1, 3), ('Fill', 1, 2), ('Fill', 1, 1), ('Inject', 0, True), ('Bake',), ('Inject', 1, True), ('Inject', 2, True)]),
     (0, 2, [('Autofill', 1, 1, True), ('Inject', 0, False), ('Inject', 0, True), ('Bake',), ('Autofill', 1, 1, True), ('Inject', 1, True)]),
 ]
 
@@ -395,7 +417,10 @@ def run(ctx: lib.Ctx) -> None:
     n_total = len(hist) + ctx.n(1000, 20000)
     while len(hist) < n_total:
         nc0 = rng.choice([0, 1, 5, 10, 125, 126, 127, 128, 16382, 16383, 10 ** 6, 2 ** 63 - 2])
-        if rng.random() < 0.45:
+        k = rng.random()
+        if k < 0.12:
+            pend0, h = gen_prebuilt(rng, maxlen)
+        elif k < 0.5:
             pend0, h = gen_wellbehaved(rng, maxlen)
         else:
             pend0, h = gen_arbitrary(rng, maxlen)
@@ -443,9 +468,20 @@ def run(ctx: lib.Ctx) -> None:
         rep = {'correspondence': 'C25/OperationGroup.fill+autofill+inject, ExecutionContext.get_counter/reset/get_counter_offset vs Client.Counter.run',
                'disagreements': len(bad), **replay_doc(nc0, pend0, h, obs, None),
                'implementation': cases[bad[0]][1], 'model': ctx.coq_eval(IMPORTS, f'report {cases[bad[0]][0]}')}
-        # search: does some *well-behaved* history among the disagreeing ones carry a wrong counter?
+        # search 1: disagreeing histories on which the implementation literally fails the property (whatever the class of the
+        # failing injection) while the model of the unchanged code satisfies it: the change broke the property on that history
         found = None
-        for i in bad:
+        cand = [i for i in bad if not meta[i][4] and meta[i][6]][:200]
+        if cand:
+            sub = [(cases[i][0], 'true') for i in cand]
+            model_wrong = set(ctx.coq_mismatches('verdict', IMPORTS, "fun x => let '(a, b, h) := x in all_right (run a b h)", 'Bool.eqb',
+                                                 'N * N * list call', 'bool', sub))
+            for j, i in enumerate(cand):
+                if j not in model_wrong:
+                    found = (meta[i], meta[i][6][0])
+                    break
+        # search 2: does some *well-behaved* history among the disagreeing ones carry a wrong counter?
+        for i in (bad if not found else []):
             m = meta[i]
             for f in m[6]:
                 if classify(f) is None:
@@ -455,7 +491,8 @@ def run(ctx: lib.Ctx) -> None:
                 break
         if found:
             m, f = found
-            ctx.violation(f"injected group carries counters {f['carried']} but the node expects {f['expected_first']} first",
+            ctx.violation(f"injected group carries counters {f['carried']} but the node expects {f['expected_first']} first "
+                          f"(on this history the unchanged code carries the expected counters)",
                           replay_doc(m[0], m[1], m[2], m[3], f), found=True)
         else:
             ctx.violation('implementation no longer corresponds to the model the theorems are about', rep, found=False)
